@@ -52,6 +52,9 @@ CHECKS = {
     'C10': dict(engine='authlens', technique='TLA+ spec IggyAuth (PasswordValid/TokenValid) + TLC model checking + TLC-generated histories + trace validation with an all-candidate login sweep over TCP and HTTP, session probes and a raw-secret file scan',
                 text='Histories over user creation, status and password changes, token creation/expiry/deletion, logins, logouts, clock ticks, the token cleaner and restarts; after every step a login is attempted with every (user, password) pair and every token ever issued over TCP and HTTP and must succeed iff the specification says the credential is valid now; connections are probed (logout de-authenticates) and every file under the data directory is scanned for every raw password/token.',
                 ref='3.7, 7/C10'),
+    'C11': dict(engine='jrnlens', technique='TLA+ spec IggyJournal (appliers, loader predicate, tamper operators; Serialized design model-checked, original design refuted as negative control) + TLC-judged forced schedules / injected failures on the real FileState and an exhaustive byte-level tamper sweep on real journal files',
+                text='Design: TLC checks AlwaysLoadable for 3 appliers and 2 failed appends and TamperEvident for journals of 1-5 entries. Code: every order of 2-3 concurrent FileState::apply calls is forced through the guarded schedule point, with every set of failing appends (guarded fault switch); the real loader must then load consecutive indices containing every acknowledged command, also after one more command. Tamper: every byte x {bit flips, 0x00, 0xFF}, every truncation, every entry removal/duplication/swap of real plain and encrypted journals; the loader must answer an error, or a prefix only when a whole suffix was lost; never a different history, never a panic.',
+                ref='3.6, 7/C11'),
 }
 
 def main():
@@ -80,7 +83,9 @@ def main():
                  dict(name='authlens', path='lib/authlens.py + harness/src/auth_lens.rs + specs/IggyAuth.tla, MC_IggyAuth.tla, Trace_IggyAuth.tla',
                       serves_properties=['C10'], kind_free_text='same technique, credential life cycle'),
                  dict(name='permlens', path='lib/permlens.py + harness/src/perm_lens.rs + specs/IggyPerm.tla, MC_IggyPerm.tla, Trace_IggyPerm.tla',
-                      serves_properties=['C09'], kind_free_text='TLC-validated decision table / sweeps against the documented permission hierarchy')],
+                      serves_properties=['C09'], kind_free_text='TLC-validated decision table / sweeps against the documented permission hierarchy'),
+                 dict(name='jrnlens', path='lib/jrnlens.py + harness/src/jrn_lens.rs + specs/IggyJournal.tla, MC_IggyJournal.tla, Trace_IggyJournal.tla',
+                      serves_properties=['C11'], kind_free_text='journal appliers under forced schedules/faults (hooks H4/H5) and byte-level tamper sweep')],
         checks=[],
         notes='See DESIGN.md. Exit codes: 0 held, 1 + VIOLATION line, 2 tool error. known-findings.json lists fixed and open findings.',
         not_applicable=[],
